@@ -6,7 +6,7 @@ import (
 	"go/types"
 	"strings"
 
-	"golang.org/x/tools/go/ssa"
+	"ikeverif/checker/xt/ssa"
 )
 
 // objectKeyBindingRules: C01 rule 2 / C07 rule 6. Every security object of the SA is built by the
